@@ -86,7 +86,12 @@ class SetEncoder(AbstractItemEncoder):
                     if namedType.isOptional:
                         continue
 
-                    subValue = value.getComponentByPosition(idx)
+                    if namedType.isDefaulted:
+                        # report the default without storing it in the value
+                        subValue = namedType.asn1Object
+
+                    else:
+                        subValue = value.getComponentByPosition(idx)
 
                 items.append((namedType.name, subValue))
 
